@@ -21,6 +21,12 @@ Definition iv (c : cfg) (l : list Z) : Z * Z :=
 Definition capof (c : cfg) (s : node) : Z * Z :=
   match shape c with O => inputs c s | _ => iv c (seen s) end.
 
+Lemma inputs_sigs c s x : sigs x = sigs s -> inputs c x = inputs c s.
+Proof. intros E. unfold inputs, m3_of, m2_of, sg. rewrite E. reflexivity. Qed.
+
+Lemma capof_eq c s x : sigs x = sigs s -> seen x = seen s -> capof c x = capof c s.
+Proof. intros E1 E2. unfold capof. rewrite (inputs_sigs c s x E1), E2. reflexivity. Qed.
+
 Lemma inputs_iv c s : shape c <> 0%nat -> inputs c s = iv c (curvals c s).
 Proof.
   unfold inputs, iv, curvals. destruct (shape c) as [|[|[|n]]]; intros H; try reflexivity. congruence.
@@ -510,6 +516,7 @@ Qed.
 Lemma inv_weaken c s : INV c true s -> INV c false s.
 Proof. intros []. constructor; auto; discriminate. Qed.
 
+
 Lemma notify_subs_fields s :
   let x := notify_subs s in
   sigs x = sigs s /\ refetch_n x = refetch_n s /\ seen x = seen s /\ st_dirty x = st_dirty s /\
@@ -522,6 +529,26 @@ Proof.
   destruct (d_sub s); sf; [destruct (d_reg s); sf|]; repeat split; reflexivity.
 Qed.
 
+(** [notify_subs] after the stored value (and what the invariant reads) was set to [nv] etc. *)
+Lemma inv_notify_subs c e s : INV c e s -> INV c e (notify_subs s).
+Proof.
+  intros I.
+  destruct (notify_subs_fields s) as (E1 & E2 & E3 & E4 & E5 & E6 & E7 & E8 & E9 & E10 & E11 & E12 & E13 & E14 & E15 & E16 & E17 & E18).
+  assert (Ec : curvals c (notify_subs s) = curvals c s)
+    by (unfold curvals, m3_of, m2_of, sg; rewrite E1, E2; reflexivity).
+  destruct I. constructor.
+  - intros f v. rewrite E12, E8. eauto.
+  - intros _. exact E11.
+  - intros v. rewrite E9, E18. eauto.
+  - rewrite Ec, E3. auto.
+  - intros f v. rewrite E12, E14, E15, E17. eauto.
+  - rewrite E12, E14, E16, E9, E17. eauto.
+  - intros _ _. exact E10.
+  - rewrite E4, E17. intros Hd. rewrite (i_D0 Hd). symmetry. apply capof_eq; auto.
+  - rewrite E4, E14, E3, E5, Ec. eauto.
+  - intros i. rewrite E13, E14, E15, E17. eauto.
+Qed.
+
 (** a completed fetch is stored and the task goes back to waiting *)
 Lemma inv_store c e s f v fu : INV c e s -> task s = TFetch f v ->
   nth_error (futs s) f = Some fu -> INV c e (set_task TIdle (store (f_res fu) s)).
@@ -530,14 +557,18 @@ Proof.
   rewrite Hf in Hf'. inversion Hf'; subst fu'.
   unfold store.
   set (s1 := set_legit (f_res fu :: legit s) (set_manual false (set_value (Some (f_res fu)) s))).
+  assert (I1 : INV c e s1).
+  { destruct I. constructor; unfold s1; sf; auto.
+    - intros v0 Hv. inversion Hv. left. reflexivity.
+    - rewrite Ht. discriminate. }
+  pose proof (inv_notify_subs c e s1 I1) as Ix.
   destruct (notify_subs_fields s1) as (E1 & E2 & E3 & E4 & E5 & E6 & E7 & E8 & E9 & E10 & E11 & E12 & E13 & E14 & E15 & E16 & E17 & E18).
   set (x := notify_subs s1) in *.
-  assert (Ec : curvals c (set_task TIdle x) = curvals c s).
-  { unfold curvals, m3_of, m2_of, sg. sf. rewrite E1, E2. reflexivity. }
-  destruct I. constructor; sf; rewrite ?Ec, ?E3, ?E4, ?E5, ?E8, ?E9, ?E10, ?E11, ?E13, ?E14, ?E15, ?E16, ?E17, ?E18;
-    unfold s1; sf; auto.
-  Show.
-Admitted.
+  destruct Ix. constructor; sf; auto.
+  - discriminate.
+  - discriminate.
+  - intros _ _ _. rewrite E9, E17. unfold s1. sf. rewrite Hres. reflexivity.
+Qed.
 
 Lemma wk_after_store s r : WK (set_woken true (set_task TIdle (store r s))).
 Proof. constructor; sf; auto. Qed.
